@@ -123,7 +123,10 @@ ENVS = (
 
 
 def check(ctx, ticks, combos, flags, order, inter, env=0, sustain=0):
-    groups = [note_lines(t, c, f, sustain, order) for t, c, f in zip(ticks, combos, flags)]
+    if order in ("x2", "x3"):  # every line of the tick written two / three times: still ONE event with the same lanes
+        groups = [note_lines(t, c, f, sustain, "asc") * int(order[1]) for t, c, f in zip(ticks, combos, flags)]
+    else:
+        groups = [note_lines(t, c, f, sustain, order) for t, c, f in zip(ticks, combos, flags)]
     body = render(ticks, groups, inter)
     text = mk(tracks={"ExpertSingle": body}, **ENVS[env][1])
     expected = [[t, lanes_vector(c)] for t, c in zip(ticks, combos)]
@@ -195,7 +198,7 @@ def run_shard(shard, ctx):
         return
     if kind == "long":
         _, gap, inter = shard
-        for reps, order in ((1, "asc"), (2, "desc"), (5, "rot")) + (((40, "asc"),) if (gap, inter) == (1, "none") else ()):
+        for reps, order in ((1, "asc"), (2, "desc"), (5, "rot")) + (((40, "asc"),) if (gap, inter) == (1, "none") else ()) + (((1, "x2"), (1, "x3")) if inter in ("none", "between") else ()):
             combos, flags = [], []
             for rep in range(reps):
                 for fi, f in enumerate(FLAGS):
